@@ -67,6 +67,15 @@ class Server:
         while time.time() - t0 < 10:
             if self.proc.poll() is not None:
                 out = self.proc.stdout.read().decode("latin-1")
+                if "Address already in use" in out + self.log()[-600:] and getattr(self, "_retries", 0) < 6:
+                    # another harness grabbed the port between free_port() and bind(): take a new one
+                    self._retries = getattr(self, "_retries", 0) + 1
+                    old = self.port; self.port = free_port()
+                    txt = open(self.conf).read().replace("server.port = %d" % old, "server.port = %d" % self.port)
+                    open(self.conf, "w").write(txt)
+                    try: os.remove(self.errlog)
+                    except OSError: pass
+                    return self.start(extra_env)
                 raise vlib.BuildError("lighttpd exited at startup (%s): %s\n%s" % (self.proc.returncode, out[-2000:], self.log()[-2000:]))
             try:
                 s = socket.create_connection(("127.0.0.1", self.port), timeout=0.5); s.close(); return self
